@@ -2,11 +2,11 @@
 
 Decided (DESIGN C18): C18.1 every dirtying event (cache-entry dirty mark, top-table
 dirty mark) is followed by need_flush := true before the task can suspend or the
-operation returns; C18.2 need_flush := false is stored only at a point where both
-top-table queues are drained and both caches were swept (no RAM-dirty kind can
-remain), so it is never cleared on an early or failing path.
-Not decided: the interleaving of a concurrent dirtier with the final pass of a flush
-(the flag is cleared after awaits of that pass; see DESIGN).
+operation returns; C18.2 a function that stores need_flush := false starts, on every
+path to an Ok return, a complete sweep of every metadata kind after the store, and
+raises the flag again (a store whose value is true on that path) before every error
+return - with and without backend faults.
+Not decided: agreement of file and memory as such (value level).
 """
 from . import c04
 
@@ -15,11 +15,12 @@ TARGETS = ('--lib',)
 
 def run(ctx, rep):
     rep.explanation = (
-        'C18 is decided in part: the two structural halves of the flag protocol (set adjacent to every dirtying event; '
-        'cleared only where the engine can show nothing is RAM-dirty) are decided on every path. Agreement of file and '
-        'memory, and the race of a concurrent dirtier with the last pass of an overlapping flush, are not decided.')
+        'C18 is decided in part: the two structural halves of the flag protocol (raised adjacent to every dirtying event; '
+        'lowered only before complete sweeps and raised again on every failing path) are decided on every path, with and '
+        'without backend faults. Agreement of file and memory as such is not decided (value level).')
     rep.rule('C18.1', 'no suspension point and no return between a dirtying event and the store need_flush := true')
-    rep.rule('C18.2', 'need_flush := false only where no metadata kind can be dirty in RAM on any path reaching the store')
+    rep.rule('C18.2', 'a function that stores need_flush := false starts a complete sweep of every metadata kind after the store on '
+                      'every path to an Ok return, and stores true again before every error return (fault-free and fault-injected paths)')
     d = c04.common(ctx, rep)
     sites = {}
     for (kind, where), info in d.sites.items():
@@ -38,6 +39,14 @@ def run(ctx, rep):
         if rule == 'C18.2':
             rep.ob(rule, site, ok, detail)
     c04.phase(d, rep, 'C18.3')
-    for key, v in sorted(d.viol.items()):
-        if v['rule'] in ('C18.1', 'C18.2'):
-            rep.violation(v['rule'], key, v['where'], v['msg'], {'path': v['chain']})
+    # error returns are only reachable with backend faults: the same rule on the fault-injected closure
+    fd = c04.closure_cached(ctx.lib, faults=True)
+    for (rule, site), (ok, detail) in sorted(fd.obl.items()):
+        if rule == 'C18.2' and (rule, site) not in d.obl:
+            rep.ob(rule, site + ' [faults]', ok, detail)
+    seen = set()
+    for src in (d, fd):
+        for key, v in sorted(src.viol.items()):
+            if v['rule'] in ('C18.1', 'C18.2') and key not in seen:
+                seen.add(key)
+                rep.violation(v['rule'], key, v['where'], v['msg'], {'path': v['chain']})
